@@ -69,9 +69,14 @@ def hmac_term(ex, key, msg, hl):
     return r
 
 
+_prev_digest_model = MODELS.get("method.digest")
+
+
 def _m_digest(ex, obj, args, kw, line):
     if isinstance(obj, HmacObj):
         return ex.name_bytes(hmac_term(ex, obj.key, obj.buf, obj.hl), "mac")
+    if _prev_digest_model is not None:
+        return _prev_digest_model(ex, obj, args, kw, line)
     raise EngineLimit("digest() on %r" % (obj,))
 
 
